@@ -40,10 +40,14 @@ fn dup_logical(rng: &mut Rng, i: u64, codec: u8) -> Logical {
         let n = [255u64, 256, 257, 65_535, 65_536, 65_537, 70_000, 131_073][((i / 24) % 8) as usize];
         l.tiles.clear();
         let start = rng.below(1 << 30);
+        // short contents: the oracle hashes every tile's content
+        let a = Rc::new(pool[0].iter().take(24).copied().collect::<Vec<u8>>());
+        let mut bb = a.as_ref().clone();
+        bb.push(0xB);
         for k in 0..n {
-            l.tiles.insert(start + k, pool[0].clone());
+            l.tiles.insert(start + k, a.clone());
         }
-        l.tiles.insert(start + n, pool[1 % pool.len()].clone());
+        l.tiles.insert(start + n, Rc::new(bb));
         l.class = format!("long-run-{n}");
         return l;
     }
